@@ -222,6 +222,12 @@ class Main(Suite):
                 c["op"], c["dir"] = "clean", kind == "cleand"
             else:
                 c["op"] = "commit"
+            # the model has no empty directories: a path argument must not exist only through them
+            for arg in (c.get("path"), c.get("to")):
+                if arg:
+                    top = arg.split("/")[0]
+                    if not any(q == top or q.startswith(top + "/") for q in wt):
+                        c["dirs"] = [e for e in c["dirs"] if e.split("/")[0] != top]
             c["bucket"] = kind
             cases.append(c)
         return cases
